@@ -707,6 +707,46 @@ impl AsyncWrite for MemEnd {
         }
         Poll::Ready(Ok(n))
     }
+    /// Vectored writes are offered (as TCP sockets do) and are as short as the
+    /// free room, so code that ignores the count returned is caught.
+    fn poll_write_vectored(self: Pin<&mut Self>, cx: &mut Context<'_>, bufs: &[io::IoSlice<'_>]) -> Poll<io::Result<usize>> {
+        let mut c = self.chan.lock().unwrap();
+        if let Err(e) = c.op() {
+            return Poll::Ready(Err(e));
+        }
+        let d = &mut c.dirs[1 - self.side];
+        if d.reader_gone {
+            return Poll::Ready(Err(io::Error::new(io::ErrorKind::BrokenPipe, "rtrsim: peer gone")));
+        }
+        if bufs.iter().all(|b| b.is_empty()) {
+            return Poll::Ready(Ok(0));
+        }
+        let mut free = d.cap.saturating_sub(d.q.len());
+        if free == 0 {
+            d.wwaker = Some(cx.waker().clone());
+            d.write_parked = true;
+            return Poll::Pending;
+        }
+        d.write_parked = false;
+        let mut n = 0;
+        for b in bufs {
+            let k = free.min(b.len());
+            d.q.extend(b[..k].iter().copied());
+            n += k;
+            free -= k;
+            if free == 0 {
+                break;
+            }
+        }
+        d.written += n as u64;
+        if let Some(w) = d.rwaker.take() {
+            w.wake();
+        }
+        Poll::Ready(Ok(n))
+    }
+    fn is_write_vectored(&self) -> bool {
+        true
+    }
     fn poll_flush(self: Pin<&mut Self>, _: &mut Context<'_>) -> Poll<io::Result<()>> {
         Poll::Ready(Ok(()))
     }
@@ -773,6 +813,12 @@ impl MemCtl {
     /// Copy of the bytes waiting for the client end.
     pub fn pending_to_client(&self) -> Vec<u8> {
         self.chan.lock().unwrap().dirs[1].q.iter().copied().collect()
+    }
+    /// Whether the server is parked on a full queue towards the client.
+    pub fn server_write_parked(&self) -> bool {
+        let c = self.chan.lock().unwrap();
+        let w = &c.dirs[1];
+        w.write_parked && w.q.len() >= w.cap
     }
     pub fn consumed_by_server(&self) -> u64 {
         self.chan.lock().unwrap().dirs[0].consumed
